@@ -372,7 +372,10 @@ func ruleR18(p *Prog) []Ob {
 				}
 				if !edgeDominates(test.Block(), matchEdge, b) {
 					// before the test, only syncing is allowed
-					if p.callReaches(c, func(g *ssa.Function) bool { n := fullName(g); return n == "os.Rename" || n == "os.Remove" || n == "(*os.File).Close" }) {
+					if p.callReaches(c, func(g *ssa.Function) bool {
+						n := fullName(g)
+						return n == "os.Rename" || n == "os.Remove" || n == "(*os.File).Close"
+					}) {
 						bad = append(bad, p.at(c)+": a call that renames, removes or closes head files is not dominated by the 'counts still match' edge of the re-validation")
 					}
 				}
